@@ -5,6 +5,7 @@ package main
 
 import (
 	"context"
+	"encoding/binary"
 	"encoding/json"
 	"errors"
 	"fmt"
@@ -12,6 +13,7 @@ import (
 
 	"go.opentelemetry.io/otel/metric"
 	"go.opentelemetry.io/otel/metric/noop"
+	"google.golang.org/protobuf/proto"
 
 	colarspb "github.com/open-telemetry/otel-arrow/api/experimental/arrow/v1"
 	"github.com/open-telemetry/otel-arrow/pkg/otel/arrow_record"
@@ -258,13 +260,14 @@ func limitLadder(h []Letter, zstd int, counters map[string]int, maxLimit uint64)
 			counters["limit_runs_with_refusal"]++
 		}
 		// cross-check: L+1 and L+63 behave as L (every quantity is a multiple of 64)
-		if L%1024 == 0 {
+		{
 			for _, d := range []uint64{1, 63} {
 				r2 := runLimited(h, bars, L+d, false)
 				counters["limit_runs"]++
+				viol[L+d] = append(viol[L+d], r2.viol...)
 				for i := range h {
 					if r2.ok[i] != r.ok[i] {
-						viol[L+d] = append(viol[L+d], fmt.Sprintf("HARNESS-ASSUMPTION: limit %d and %d differ on batch %d", L, L+d, i))
+						viol[L+d] = append(viol[L+d], fmt.Sprintf("limits %d and %d (same multiple of 64, every buffer is a multiple of 64) decide batch %d differently", L, L+d, i))
 					}
 				}
 			}
@@ -275,6 +278,84 @@ func limitLadder(h []Letter, zstd int, counters map[string]int, maxLimit uint64)
 		}
 	}
 	return viol, lstar, exhaustive
+}
+
+// patchFirstBodyLength overwrites the bodyLength field (flatbuffer Message
+// table, field #3) of the first encapsulated IPC message that carries a body.
+func patchFirstBodyLength(stream []byte, newLen int64) bool {
+	pos := 0
+	for pos+8 <= len(stream) {
+		if binary.LittleEndian.Uint32(stream[pos:]) != 0xFFFFFFFF {
+			return false
+		}
+		metaLen := int(int32(binary.LittleEndian.Uint32(stream[pos+4:])))
+		if metaLen <= 0 || pos+8+metaLen > len(stream) {
+			return false
+		}
+		meta := stream[pos+8 : pos+8+metaLen]
+		tab := int(binary.LittleEndian.Uint32(meta))
+		if tab+4 > len(meta) {
+			return false
+		}
+		vt := tab - int(int32(binary.LittleEndian.Uint32(meta[tab:])))
+		if vt < 0 || vt+12 > len(meta) {
+			return false
+		}
+		vtSize := int(binary.LittleEndian.Uint16(meta[vt:]))
+		fieldOff := 0
+		if vtSize >= 12 {
+			fieldOff = int(binary.LittleEndian.Uint16(meta[vt+10:]))
+		}
+		var bodyLen int64
+		if fieldOff != 0 && tab+fieldOff+8 <= len(meta) {
+			bodyLen = int64(binary.LittleEndian.Uint64(meta[tab+fieldOff:]))
+		}
+		if bodyLen > 0 {
+			binary.LittleEndian.PutUint64(meta[tab+fieldOff:], uint64(newLen))
+			return true
+		}
+		pos += 8 + metaLen + int(bodyLen)
+	}
+	return false
+}
+
+// declaredSize: the last batch of the history declares a body far larger than
+// the limit (what a memory limit is for): it must be refused with the
+// memory-limit error before anything of that size is allocated.
+func declaredSize(h []Letter, zstd int) []string {
+	o := DefaultOptions()
+	o.Zstd = zstd
+	bars := encodeAllOpts(h, o)
+	if bars == nil {
+		return nil
+	}
+	last := proto.Clone(bars[len(bars)-1]).(*colarspb.BatchArrowRecords)
+	patched := false
+	for i := len(last.ArrowPayloads) - 1; i >= 0 && !patched; i-- {
+		patched = patchFirstBodyLength(last.ArrowPayloads[i].Record, 1<<50)
+	}
+	if !patched {
+		return nil
+	}
+	const limit = 1 << 20
+	c := arrow_record.NewConsumer(arrow_record.WithMemoryLimit(limit))
+	defer func() { protect(func() { c.Close() }) }()
+	for i := 0; i+1 < len(h); i++ {
+		if _, err, pan := decodeCanon(c, h[i], bars[i]); err != nil || pan != "" {
+			return nil
+		}
+	}
+	_, err, pan := decodeCanon(c, h[len(h)-1], last)
+	var viol []string
+	switch {
+	case pan != "":
+		viol = append(viol, "a batch declaring a 2^50 byte buffer made the consumer panic under a 1 MiB limit: "+pan)
+	case err == nil:
+		viol = append(viol, "a batch declaring a 2^50 byte buffer was accepted under a 1 MiB limit")
+	case !errors.Is(err, arrow_record.ErrConsumerMemoryLimit):
+		viol = append(viol, fmt.Sprintf("a batch declaring a 2^50 byte buffer was refused under a 1 MiB limit with an error that is not recognisable as the memory-limit error: %v", err))
+	}
+	return viol
 }
 
 func limitAlphabet(sig string) []Letter {
@@ -318,6 +399,12 @@ func limitWorker(tier string, shard, nshard int) *WorkerOut {
 				out.Units++
 				out.States++
 				viol, lstar, exh := limitLadder(h, z, out.Counters, 4<<20)
+				if len(h) <= 2 {
+					out.Counters["declared_size_cases"]++
+					if dv := declaredSize(h, z); len(dv) > 0 {
+						viol[1<<20] = append(viol[1<<20], dv...)
+					}
+				}
 				if !exh {
 					out.Counters["ladder_capped"]++
 				}
@@ -394,9 +481,9 @@ func init() {
 				maxL = o.MaxDict
 			}
 		}
-		return map[string]any{"limit_runs": c["limit_runs"], "limit_runs_with_refusal": c["limit_runs_with_refusal"], "ladders_capped": c["ladder_capped"], "panics_on_unhealthy_stream_not_judged": c["panics_on_unhealthy_stream_not_judged"],
+		return map[string]any{"limit_runs": c["limit_runs"], "limit_runs_with_refusal": c["limit_runs_with_refusal"], "ladders_capped": c["ladder_capped"], "declared_size_cases": c["declared_size_cases"], "panics_on_unhealthy_stream_not_judged": c["panics_on_unhealthy_stream_not_judged"],
 			"largest_first_limit_without_refusal": maxL, "exhaustive": c["ladder_capped"] == 0, "max_dictionary_entries_seen": 0,
-			"ladder": "limits 64*k for k = 0.. up to the first limit with no refusal in the whole history, plus L+1 and L+63 cross-checks every 1 KiB, plus the default 70 MiB"}
+			"ladder": "limits 64*k for k = 0.. up to the first limit with no refusal in the whole history, each with the unaligned limits L+1 and L+63, plus the default 70 MiB"}
 	}
 }
 
